@@ -241,7 +241,7 @@ func (el *eventloop) open(c *conn) error {
 
 	if !c.outboundBuffer.IsEmpty() && !el.engine.opts.EdgeTriggeredIO {
 		if err := el.poller.ModReadWrite(&c.pollAttachment, false); err != nil {
-			return err
+			return el.close(c, err)
 		}
 	}
 
@@ -351,7 +351,10 @@ loop:
 	// All data have been sent, it's no need to monitor the writable events for LT mode,
 	// remove the writable event from poller to help the future event-loops if necessary.
 	if !isET && c.outboundBuffer.IsEmpty() {
-		return el.poller.ModRead(&c.pollAttachment, false)
+		if err = el.poller.ModRead(&c.pollAttachment, false); err != nil {
+			return el.close(c, err)
+		}
+		return nil
 	}
 
 	// To prevent infinite writing in ET mode and starving other events,
